@@ -2,3 +2,6 @@
 
 def roundtrip_jobs(protos, tier):
     return []
+
+def panic_jobs(tier):
+    return []
